@@ -11,6 +11,15 @@
 - the reset state is compared with the model's parse of the ASCII maze (`pacman_reset_io`), the constants the proofs
   speak about (sizes, wrap moduli, default limit) with `pacman_consts_io`;
 - observation spec validation on the boundary states (rows 28/29, tunnel columns 0/27).
+- C08 (Proofs/PacMan_Book.v): on every implementation transition whose source satisfies the bookkeeping invariant
+  (counter = live pellets, live pellets / power-ups distinct) the potential  score + 10 pellets + 50 power-ups left +
+  200 ghosts still edible  is conserved and the reward is the score difference; per rollout episode the sum of the
+  emitted rewards up to LAST equals the score of the final state and the objective recomputed from it.
+- ghosts, exactly (Model/PacManGhost.v, `pacman_ghost_io`): forward -- the four ghost actions of EVERY implementation
+  transition lie in the model's exact choice set (tunnel / waiting / distance-argmin among the non-backtracking free
+  neighbours); converse -- in constructed situations (all four ghosts on an intersection, on the player, in a corner of
+  walls, frightened, with init steps left...) and for every action, the step is re-run under K sampled PRNG keys and the
+  set of ghost actions observed must EQUAL the model's set (each candidate has probability >= 1/4 per key).
 Rewards are integral (10 / 50 / 200 multiples) and compared exactly.
 """
 import numpy as np
@@ -18,7 +27,7 @@ import numpy as np
 from harness import envkit
 
 NAME = "pac_man"
-PROPS = ["C01", "C03", "C04", "C05", "C07", "C09", "C10", "C11", "C12"]
+PROPS = ["C01", "C03", "C04", "C05", "C07", "C08", "C09", "C10", "C11", "C12"]
 APPLIES = PROPS
 
 MINI_MAZE = [
@@ -104,6 +113,60 @@ def state_desc(s):
                 ghost_starts=_flat(s.ghost_starts), frightened=int(s.frightened_state_time), pellets=int(s.pellets),
                 step_count=int(s.step_count), score=int(s.score), ghost_eaten=_flat(s.ghost_eaten), key=_flat(s.key),
                 last_direction=int(s.last_direction))
+
+
+def _live(a):
+    a = np.asarray(a).reshape(-1, 2)
+    return [tuple(int(v) for v in r) for r in a if (r != 0).any()]
+
+
+def book_ok(s):
+    """the counters part of the proofs' invariant Book on an implementation state"""
+    lp, lu = _live(s.pellet_locations), _live(s.power_up_locations)
+    return int(s.pellets) == len(lp) and len(set(lp)) == len(lp) and len(set(lu)) == len(lu)
+
+
+def potential(s):
+    return (int(s.score) + 10 * int(s.pellets) + 50 * len(_live(s.power_up_locations))
+            + 200 * int(np.asarray(s.ghost_eaten).astype(bool).sum()))
+
+
+def check_c08_step(kit, s, s2, ts2, m):
+    """potential conserved, reward = score difference, counter tracks the map (theorems step_Book / ret_score)"""
+    if not book_ok(s):
+        kit.res["C08"].count("source-without-book")
+        return
+    r = kit.res["C08"]
+    r.evaluations += 1
+    r.distinct.add((m["cfg"], m["p"], m["b"], m["t"]))
+    rew = _num(ts2.reward)
+    r.count("reward:%d" % rew)
+    if not (potential(s2) == potential(s) and rew == int(s2.score) - int(s.score) and book_ok(s2)):
+        kit.fail(["C08"], "score bookkeeping broken: reward / score / pellet counter / power-ups / ghost_eaten do not add up "
+                 "(potential %d -> %d, reward %d, score %d -> %d)" % (potential(s), potential(s2), rew, int(s.score), int(s2.score)),
+                 dict(cfg=m["cfg"], op="potential"), dict(m, seed=kit.seed))
+
+
+def check_c08_episode(kit, lab, p, st, ts, ac, fl):
+    """return of each rollout episode (rewards up to and including LAST, or up to the end of the rollout) against the
+    final state: score, and 10 * pellets gone + 50 * power-ups gone + 200 * ghosts eaten (return_is_objective)"""
+    rew = np.asarray(ts.reward)
+    r = kit.res["C08"]
+    for b in range(ac.shape[0]):
+        end = min(ac.shape[1], int(fl[b]))
+        s0, sf = envkit.R.slice_tree(st, b, 0), envkit.R.slice_tree(st, b, end)
+        ret = float(rew[b, 1:end + 1].sum())
+        obj = (10 * (len(_live(s0.pellet_locations)) - len(_live(sf.pellet_locations)))
+               + 50 * (len(_live(s0.power_up_locations)) - len(_live(sf.power_up_locations)))
+               + 200 * (int(np.asarray(s0.ghost_eaten).astype(bool).sum()) - int(np.asarray(sf.ghost_eaten).astype(bool).sum())))
+        r.evaluations += 1
+        r.distinct.add((lab, p, b, "episode"))
+        r.count("episode-return:%d" % (int(ret) // 100 * 100))
+        r.count("episode-ended" if fl[b] <= ac.shape[1] else "episode-running")
+        if not (ret == obj == int(sf.score) - int(s0.score) and int(sf.pellets) == len(_live(sf.pellet_locations))):
+            kit.fail(["C08"], "episode return (%s) differs from the objective recomputed from the final state (%d) or from the score (%d)"
+                     % (ret, obj, int(sf.score) - int(s0.score)), dict(cfg=lab, op="episode-return"),
+                     dict(cfg=lab, p=p, b=b, steps=end, seed=kit.seed, final=state_desc(sf)))
 
 
 def state_key(s):
@@ -198,6 +261,77 @@ def synthetic_states(kit, s0, T):
     return out
 
 
+def ghost_situations(kit, s0):
+    """small constructed situations for the ghosts' choice set"""
+    from jumanji.environments.routing.pac_man.types import Position
+    g = np.asarray(s0.grid)
+    xs, ys = g.shape
+    free = [(r, c) for r in range(xs) for c in range(ys) if g[r, c] == 1]
+    fs = set(free)
+    out = []
+
+    def nbs(r, c):
+        return [(r + dr, c + dc) for (dr, dc) in ((0, -1), (-1, 0), (0, 1), (1, 0)) if (r + dr, c + dc) in fs]
+
+    def mk(tag, player, gcell, old, fr=0, init=(0, 0, 0, 0), starts=(-3, -3, -3, -3), acts=(0, 1, 2, 3)):
+        d = dict(player_locations=Position(x=np.int32(player[0]), y=np.int32(player[1])))
+        kw = dict(ghost_locations=[[gcell[1], gcell[0]]] * 4, old_ghost_locations=[[old[1], old[0]]] * 4, frightened_state_time=fr,
+                  ghost_init_steps=list(init), ghost_starts=list(starts), ghost_actions=list(acts))
+        for k, v in kw.items():
+            ref = np.asarray(getattr(s0, k))
+            d[k] = np.asarray(v, dtype=ref.dtype).reshape(ref.shape)
+        out.append((tag, s0.replace(**d)))
+
+    inter = [(r, c) for (r, c) in free if len(nbs(r, c)) >= 3]
+    n = 10 if kit.tier == "quick" else 60
+    for i in kit.rng.permutation(len(inter))[:n]:
+        r, c = inter[int(i)]
+        nb = nbs(r, c)
+        old = nb[int(kit.rng.integers(0, len(nb)))]
+        pl = free[int(kit.rng.integers(0, len(free)))]
+        mk("g-intersection", pl, (r, c), old)
+        mk("g-intersection-on-player", (r, c), (r, c), old)              # distance ties
+        mk("g-intersection-frightened", pl, (r, c), old, fr=4)
+        mk("g-intersection-no-old", pl, (r, c), (r, c))                  # nothing masked as backtracking
+    for i in kit.rng.permutation(len(inter))[:max(3, n // 4)]:
+        r, c = inter[int(i)]
+        nb = nbs(r, c)
+        pl = free[int(kit.rng.integers(0, len(free)))]
+        mk("g-init-steps", pl, (r, c), nb[0], init=(2, 0, 3, 1))
+        mk("g-mixed-starts", pl, (r, c), nb[-1], starts=(-1, 0, 1, -2))
+        near = nbs(r, c)[0]
+        mk("g-orange-near", near, (r, c), nb[-1])                        # ghost 3 within 8 of the player: scatter target
+    # corners of free cells (2 free neighbours, not a straight corridor) and straight corridors
+    corner = [(r, c) for (r, c) in free if len(nbs(r, c)) == 2 and not ({(r, c - 1), (r, c + 1)} <= fs or {(r - 1, c), (r + 1, c)} <= fs)]
+    for i in kit.rng.permutation(len(corner))[:4 if kit.tier == "quick" else 20]:
+        r, c = corner[int(i)]
+        nb = nbs(r, c)
+        mk("g-corner", free[int(kit.rng.integers(0, len(free)))], (r, c), nb[0])
+        mk("g-corner-no-old", free[int(kit.rng.integers(0, len(free)))], (r, c), (r, c))
+    # a ghost on a wall cell surrounded by walls: no valid neighbour, min = inf, all four actions are candidates
+    mk("g-walled-in", free[0], (0, 0), (0, 0))
+    return out
+
+
+def ghost_converse(kit, env, lab, sits, calls, metas):
+    """re-run env.step under K keys for every situation and action; record the set of actions each ghost produced"""
+    import jax
+    import jax.numpy as jnp
+    K = 64 if kit.tier == "quick" else 256
+    if not hasattr(env, "_verif_ghost_keys"):
+        env._verif_ghost_keys = jax.jit(jax.vmap(jax.vmap(jax.vmap(
+            lambda s, a, k: env.step(s.replace(key=k), a)[0].ghost_actions, in_axes=(None, None, 0)), in_axes=(None, 0, None)), in_axes=(0, None, None)))
+    keys = jax.random.split(jax.random.PRNGKey(kit.seed * 131 + 7), K)
+    batch = jax.tree_util.tree_map(lambda *xs_: jnp.stack([jnp.asarray(x) for x in xs_]), *[s for _, s in sits])
+    out = np.asarray(env._verif_ghost_keys(batch, jnp.arange(5, dtype=jnp.int32), keys))     # [N, 5, K, 4]
+    for i, (tag, s) in enumerate(sits):
+        s = jax.tree_util.tree_map(np.asarray, s)
+        for a in range(5):
+            seen = [sorted({int(v) for v in out[i, a, :, gi]}) for gi in range(4)]
+            calls.append(("pacman_ghost_io", enc_state(s) + [a, 0, 0, 0, 0]))
+            metas.append(("ghost-set", None, seen, dict(cfg=lab, tag=tag, i=i, action=a, keys=K, state=state_desc(s))))
+
+
 def analyze(kit):
     import jax
     import jax.numpy as jnp
@@ -256,12 +390,14 @@ def analyze(kit):
                     if body_fields(s0) != body_fields(s00) or not np.array_equal(s0.grid, s00.grid):
                         kit.fail(["C10"], "reset state depends on the key (the ASCII generator is documented as deterministic)",
                                  dict(cfg=lab, op="reset-constant"), dict(m, seed=kit.seed))
+            check_c08_episode(kit, lab, p, st, ts, ac, fl)
             # ---------------- rollout transitions ----------------
             for (b, t, s, a, s2, ts2) in kit.transitions(roll):
                 mask = np.asarray(envkit.R.slice_tree(ts, b, t).observation.action_mask)
                 legal = bool(mask[int(a)])
                 m = dict(cfg=lab, p=p, b=b, t=t, action=int(a), legal=legal, state=state_desc(s), src="rollout")
                 add_step(calls, metas, topt, T, s, int(a), s2, ts2, m)
+                check_c08_step(kit, s, s2, ts2, m)
                 h = state_key(s)
                 if h not in visited:
                     visited[h] = ("rollout", s, mask)
@@ -310,6 +446,7 @@ def analyze(kit):
                 legal = bool(mask[a])
                 m = dict(cfg=lab, p="all-actions", b=i, t=a, action=a, legal=legal, state=state_desc(s), src=tag, src_i=i)
                 add_step(calls, metas, topt, T, s, a, s2, ts2, m)
+                check_c08_step(kit, s, s2, ts2, m)
                 npos = (int(s2.player_locations.x), int(s2.player_locations.y))
                 moved = npos != pos
                 # the environment's own reaction: mask[a] <=> the player moved (C04)
@@ -356,6 +493,24 @@ def analyze(kit):
                         kit.fail(["C05"], "a move into a wall is not ignored (player moved, something was eaten on its behalf, or the episode ended without cause)",
                                  dict(cfg=lab, op="illegal-ignored"), dict(m, seed=kit.seed, new_position=list(npos), step_type=int(ts2.step_type)))
 
+        # the model compares squared integer distances where the code compares float32 norms: float32 sqrt must be
+        # strictly increasing on every squared distance that can occur on this maze (and sqrt(64) == 8 exactly)
+        bound = 2 * (2 * (xs + ys) + 8) ** 2
+        rt = np.sqrt(np.arange(bound + 1, dtype=np.float32))
+        rj = np.asarray(jax.vmap(jnp.linalg.norm)(jnp.stack([jnp.arange(0, 2 * (xs + ys) + 8, dtype=jnp.int32)] * 2, axis=1)))
+        res["C09"].evaluations += 1
+        res["C09"].distinct.add((lab, "sqrt-monotone", bound))
+        if not ((np.diff(rt) > 0).all() and rt[64] == 8.0 and rt[65] > 8.0 and (np.diff(rj) > 0).all()):
+            kit.fail(["C09"], "float32 sqrt is not strictly increasing on the squared distances of this maze: the integer argmin of the "
+                     "ghost model is not the code's argmin", dict(cfg=lab, op="sqrt-monotone"), dict(bound=bound))
+        # ---------------- ghosts: converse check of the exact choice set ----------------
+        if kit.tier != "quick" or lab == "default":
+            sits = ghost_situations(kit, s00)
+            sits += [(tag, s) for tag, s, _ in items if tag != "rollout" and (np.asarray(s.ghost_starts) < 0).any()][:20 if kit.tier == "quick" else 100]
+            rolled = [(tag, s) for tag, s, _ in items if tag == "rollout" and (np.asarray(s.ghost_starts) < 0).any()]
+            sits += rolled[:15 if kit.tier == "quick" else 100]
+            ghost_converse(kit, env, lab, sits, calls, metas)
+
     for (xs, ys, g, lab) in mazes.values():
         calls.append(("pacman_maze_io", [xs, ys] + g))
         metas.append(("maze", None, [1], dict(cfg=lab)))
@@ -396,6 +551,29 @@ def analyze(kit):
                     what = "a ghost action chosen by the implementation is outside the set the model permits (ghost_draw_ok)"
                 kit.fail(sorted(pids), what, dict(cfg=m["cfg"], op="corr-step", fields=",".join(bad)),
                          dict(m, model=_short(lay, got, bad), impl=_short(lay, exp, bad), seed=kit.seed))
+        elif kind == "ghost":
+            for pid in ("C07", "C09"):
+                res[pid].evaluations += 1
+            sets = [got[4 + 5 * gi:9 + 5 * gi] for gi in range(4)]
+            for gi in range(4):
+                res["C09"].count("ghost-set-size:%d" % sum(sets[gi]))
+            if got[:4] != [1, 1, 1, 1]:
+                kit.fail(["C07", "C09"], "a ghost action chosen by the implementation is outside the EXACT choice set of the model "
+                         "(tunnel / waiting / distance-argmin among non-backtracking free neighbours)",
+                         dict(cfg=m["cfg"], op="ghost-exact"), dict(m, exact_flags=got[:4], model_sets=sets, seed=kit.seed))
+        elif kind == "ghost-set":
+            res["C09"].evaluations += 1
+            res["C09"].distinct.add((m["cfg"], "ghost-set", m["i"], m["action"]))
+            sets = [[d for d in range(5) if got[4 + 5 * gi + d] == 1] for gi in range(4)]
+            for gi in range(4):
+                res["C09"].count("converse:%s:size%d" % (m["tag"].split("=")[0].split("-f")[0], len(sets[gi])))
+            if sets != exp:
+                extra = [[d for d in exp[gi] if d not in sets[gi]] for gi in range(4)]
+                missing = [[d for d in sets[gi] if d not in exp[gi]] for gi in range(4)]
+                what = ("ghost choice set: the implementation produced actions the model's exact set excludes" if any(extra) else
+                        "ghost choice set: actions the model allows were never produced under %d sampled keys (model set too large)" % m["keys"])
+                kit.fail(["C09"] + (["C07"] if any(extra) else []), what, dict(cfg=m["cfg"], op="ghost-converse"),
+                         dict(m, model_sets=sets, observed_sets=exp, not_in_model=extra, never_observed=missing, seed=kit.seed))
         elif kind == "rule":
             res["C09"].evaluations += 1
             if got != exp:
@@ -491,6 +669,8 @@ def add_step(calls, metas, topt, T, s, a, s2, ts2, m):
     m = dict(m, draws=draws)
     calls.append(("pacman_step_io", e))
     metas.append(("step", layout(npel), enc_out(s2, ts2, T), m))
+    calls.append(("pacman_ghost_io", enc_state(s) + [a] + draws))
+    metas.append(("ghost", None, None, m))
     # declarative rules: ghost outcome taken from the implementation (reward not explained by pellet / power-up, death)
     pos2 = (int(s2.player_locations.x), int(s2.player_locations.y))
     on_pel = any((int(c), int(r)) == (pos2[1], pos2[0]) for c, r in np.asarray(s.pellet_locations).tolist())
